@@ -1,4 +1,148 @@
-"""C19 — not built yet."""
+"""C19 — concurrent persist: all files written or an error, under every schedule (DESIGN.md §5.19)."""
+import json, os, subprocess
+from vlib import core
+
+THEOREMS = ["Props.C19." + t for t in [
+    "facts_match", "inv", "no_panic", "no_deadlock", "termination", "terminates_within", "return_means_quiescent",
+    "success_means_all_written", "success_written_perm", "failure_reported", "returned_error_genuine",
+    "no_double_write", "written_own_content", "semaphore_bound"]]
+
+
+def _merge(total, st):
+    total["evaluations"] += st["evaluations"]
+    total["distinct_nontrivial"] += st["distinct_nontrivial"]
+    for k, v in st["distribution"].items():
+        total["distribution"][k] = total["distribution"].get(k, 0) + v
+    if len(total["samples"]) < 6:
+        total["samples"] += (st.get("samples") or [])[:2]
+    for f in (st.get("oracle_failures") or []):
+        total["oracle_failures"].append(f)
+
+
 def run(ctx):
-    print("C19: no check built yet")
-    return 2
+    exe = ctx.go_build("c19")
+    ctx.trusted += ["translator harness/cmd/c19 extract (go/ast over asyncPostProcess.OnFinished -> Generated/C19.lean)",
+                    "verif trace points in generator/generator.go (build tag verif) and the schedule controller in harness/cmd/c19",
+                    "trace replay / LTS exploration in lean/Driver/C19.lean (the LTS itself is the proved model, instantiated with the generated facts)"]
+    ctx.assumptions += ["Go channels, sync.WaitGroup and goroutine creation behave as the LTS's primitive transitions (buffered FIFO channel, counter, blocking Wait); "
+                        "interleavings below trace-point granularity are sequentially consistent",
+                        "a job is identified by its index; PostProcess and the write callback fail exactly as the injected oracle says; "
+                        "a failing write callback is treated as having written nothing",
+                        "no trace point separates wg.Done() from <-processing: schedules split there only in free-running runs"]
+    if exe and ctx.replay:
+        rc, out = core.sh([exe, "replay", "-repo", core.REPO, "-file", ctx.replay], timeout=600)
+        fails = json.loads(out.strip().split("\n")[-1]) if rc == 0 else []
+        if rc != 0:
+            raise core.MachineryError("c19 replay failed: " + out[-2000:])
+        for f in fails:
+            ctx.add_violation(f["key"], f["what"], f["input"], f["expected"], f["observed"])
+        ctx.cov["evaluations"] = 1
+        return ctx.finish(rule="replay of one configuration and schedule")
+    if exe:
+        rc, gen = core.sh([exe, "extract", "-repo", core.REPO])
+        if rc != 0:
+            ctx.obligation("translator:c19-extract", False, gen[-2000:])
+        else:
+            ctx.obligation("translator:c19-extract", True)
+            ctx.write_generated("C19", gen)
+    drv = ctx.lake_build(["tv_c19"], "lake-build:tv_c19")
+    built = ctx.lake_build(["ThriftVerif.Props.C19"], "lake-build:Props.C19")
+    if built:
+        ctx.audit("C19", THEOREMS)
+        if ctx.tier == "thorough":
+            ctx.leanchecker(["ThriftVerif.Props.C19"])
+    if not exe:
+        return ctx.finish(rule="harness did not build")
+    thorough = ctx.tier == "thorough"
+    paths = os.path.join(ctx.work, "paths.txt")
+    explore_note = None
+    states = transitions = 0
+    with open(paths, "w") as pf:
+        if drv:
+            d = ctx.driver_path("tv_c19")
+            rc, facts = core.sh([d, "facts"])
+            changed = "facts=expected" not in facts
+            # bounded exploration of the LTS instantiated with the facts of THIS tree (sanity on the unchanged tree,
+            # search for a violating schedule when the skeleton changed)
+            rc, ex = core.sh([d, "explore", "4" if (thorough or changed) else "3", "3" if (thorough or changed) else "2"], timeout=1200)
+            if rc != 0:
+                raise core.MachineryError("tv_c19 explore failed: " + ex[-2000:])
+            viol = [l for l in ex.split("\n") if l.startswith("X ")]
+            for l in ex.split("\n"):
+                if l.startswith("S "):
+                    kv = dict(x.split("=") for x in l.split()[1:])
+                    states, transitions = int(kv["states"]), int(kv["transitions"])
+            ctx.obligation("lts-exploration(generated facts): no reachable state violates a statement", not viol,
+                           "; ".join(l.split(" | ")[0] for l in viol)[:1500])
+            for l in viol:
+                pf.write(l + "\n")
+            if changed:
+                explore_note = "skeleton facts differ from the proved ones:\n" + facts
+            n_paths = 40000 if thorough else 400
+            rc, gp = core.sh([d, "gen", str(ctx.seed), str(n_paths), "12" if thorough else "6", "16" if thorough else "4"], timeout=1200)
+            if rc != 0:
+                raise core.MachineryError("tv_c19 gen failed: " + gp[-2000:])
+            pf.write(gp)
+            if thorough:
+                rc, cp = core.sh([d, "cover", "3", "2"], timeout=1200)
+                if rc != 0:
+                    raise core.MachineryError("tv_c19 cover failed: " + cp[-2000:])
+                pf.write(cp)
+    if explore_note:
+        ctx.notes.append(explore_note)
+    nbatch = 12 if thorough else 1
+    procs = []
+    for b in range(nbatch):
+        bd = os.path.join(ctx.work, "b%d" % b)
+        os.makedirs(bd)
+        env = dict(os.environ)
+        env.update(core.GOENV)
+        procs.append((bd, subprocess.Popen([exe, "run", "-repo", core.REPO, "-dir", bd, "-seed", str(ctx.seed), "-tier", ctx.tier,
+                                            "-paths", paths, "-batch", str(b), "-nbatch", str(nbatch)],
+                                           stdout=subprocess.PIPE, stderr=subprocess.STDOUT, text=True, env=env)))
+    total = dict(evaluations=0, distinct_nontrivial=0, distribution={}, samples=[], oracle_failures=[])
+    crashed = []
+    for bd, p in procs:
+        try:
+            out, _ = p.communicate(timeout=2400)
+        except subprocess.TimeoutExpired:
+            p.kill()
+            out, _ = p.communicate()
+            crashed.append("timeout: " + out[-1500:])
+            continue
+        if p.returncode != 0:
+            crashed.append(out[-3000:])
+            continue
+        _merge(total, json.load(open(os.path.join(bd, "stats.json"))))
+    if crashed:
+        # a Go runtime crash of the harness process (e.g. "sync: negative WaitGroup counter" in a worker goroutine)
+        # is the implementation panicking, not the machinery
+        if any("panic:" in c or "fatal error:" in c for c in crashed):
+            ctx.obligation("harness-run: implementation did not crash the process", False, crashed[0][-1500:])
+        else:
+            raise core.MachineryError("c19 run failed: " + crashed[0])
+    traces = 0
+    if drv:
+        for bd, _ in procs:
+            ops = os.path.join(bd, "ops.txt")
+            if not os.path.exists(ops):
+                continue
+            model = ctx.run_model("tv_c19", ops, out_path=os.path.join(bd, "model.txt"))
+            ctx.diff_lines("c19-" + os.path.basename(bd), ops, os.path.join(bd, "impl.txt"), model)
+            traces += sum(1 for l in open(ops) if l.startswith("T "))
+            for f in ("ops.txt", "impl.txt", "model.txt"):
+                os.remove(os.path.join(bd, f))
+    dist = total["distribution"]
+    forced_bad = {k: v for k, v in dist.items() if k.startswith("forced:stuck") or k.startswith("forced:diverged")}
+    ctx.obligation("model-paths-forced-on-implementation: every forced step was followed (select races excepted)", not forced_bad, json.dumps(forced_bad))
+    ctx.cov.update(evaluations=total["evaluations"], distinct_nontrivial=total["distinct_nontrivial"], samples=total["samples"],
+                   distribution=dist, exhaustive=False, traces_validated_against_impl=traces, states=states, transitions=transitions,
+                   exhaustive_parts="LTS with the generated facts explored exhaustively for N<=%s, K<=%s, every failure oracle in {ok,pp,write}^N; "
+                                    "thorough: every transition of the LTS for N<=3, K<=2 forced on the implementation" % (("4", "3") if thorough else ("3", "2")))
+    for f in total["oracle_failures"]:
+        ctx.add_violation(f["key"], f["what"], f["input"], f["expected"], f["observed"])
+    return ctx.finish(rule="schedules of the real OnFinished chosen by a controller at trace-point granularity: seeded strategies (uniform, dispatcher-first, "
+                           "workers-first, failing-first, random priorities, hold-exits, round-robin), model paths generated by the LTS driver and forced on the "
+                           "implementation, free-running runs checked against the LTS's reachable finals (N<=4), Persist end to end with real files; "
+                           "configurations: N jobs, concurrency (incl. <=0 and >N), failure pattern none/all/first/last/random per stage, with/without post-processor; "
+                           "distinct by sha256 of configuration+event trace, non-trivial = at least one job")
